@@ -82,3 +82,6 @@ PROPS["C14"]["level_text"] += (" The encoding side of message_fields.go is in th
                                "model's statement, checked by the correspondence.")
 PROPS["C14"]["rule"] += ("; route 5: the value NewID makes of each text through MarshalText/UnmarshalText, Value/Scan (string and []byte), "
                          "MarshalJSON/UnmarshalJSON, every buffer overwritten after use, the JSON document compared by what it denotes")
+PROPS["C15"]["level_text"] += (" The round trip is stable (MessageStable.v): wire (roundtrip_of m) = wire m for every message, so decode-then-encode "
+                               "is the identity on every encoding of an API-built message, the decoded message is its own round trip and WriteTo "
+                               "makes on it exactly the calls it makes on the original (C15_roundtrip_stable, C15_wire_of_roundtrip).")
